@@ -277,10 +277,19 @@ class BaseObserver(EventDispatcher):
             error = "threads can only be started once"
             raise RuntimeError(error)
         for emitter in self._emitters.copy():
+            if emitter.ident is not None:
+                # Started by an earlier start() that failed further on.
+                continue
             try:
                 emitter.start()
             except Exception:
-                self._remove_emitter(emitter)
+                with self._lock:
+                    # The watch goes with its emitter: its handlers would otherwise stay registered
+                    # for a watch that nobody monitors (and that unschedule() no longer knows).
+                    if emitter in self._emitters:
+                        self._remove_emitter(emitter)
+                    self._handlers.pop(emitter.watch, None)
+                    self._watches.discard(emitter.watch)
                 raise
         super().start()
 
